@@ -36,6 +36,7 @@ def w_mandy(ctx, rng, idx):
     x = gen.data_matrix(rng, (d, m))
     dup = rng.random() < 0.25 and m > 1
     if dup:
+        x = np.array(x, copy=True)
         x[:, -1] = x[:, 0]  # duplicated snapshot: rank-deficient transformed data
     y = rng.standard_normal((d, m))
     thr = 1e-10 if (dup or rng.random() < 0.4) else 0.0
@@ -57,6 +58,7 @@ def w_kb(ctx, rng, idx):
     x = gen.data_matrix(rng, (d, m))
     dup = rng.random() < 0.25 and m > 1
     if dup:
+        x = np.array(x, copy=True)
         x[:, -1] = x[:, 0]
     bl = rand_basis(rng, d)
     y = rng.standard_normal((int(rng.integers(1, 4)), m))
